@@ -115,15 +115,21 @@ class DataObjectProperty(DopBase):
         """
         Convert a physical representation of a parameter to a string bytes that can be send over the wire
         """
-        if not self.is_valid_physical_value(physical_value):
-            raise EncodeError(
-                f"The value {repr(physical_value)} of type {type(physical_value).__name__}"
-                f" is not a valid.")
+        try:
+            if not self.is_valid_physical_value(physical_value):
+                raise EncodeError(
+                    f"The value {repr(physical_value)} of type {type(physical_value).__name__}"
+                    f" is not a valid.")
 
-        if not isinstance(physical_value, (int, float, str, BytesTypes)):
-            odxraise(f"Invalid type '{type(physical_value).__name__}' for physical value. "
-                     f"(Expect atomic type!)")
-        internal_value = self.compu_method.convert_physical_to_internal(physical_value)
+            if not isinstance(physical_value, (int, float, str, BytesTypes)):
+                odxraise(f"Invalid type '{type(physical_value).__name__}' for physical value. "
+                         f"(Expect atomic type!)")
+            internal_value = self.compu_method.convert_physical_to_internal(physical_value)
+        except (ArithmeticError, ValueError) as e:
+            # e.g., infinite or NaN values for integer objects or
+            # numbers which are too large to be converted
+            raise EncodeError(f"The value {physical_value!r} cannot be converted to "
+                              f"an internal value: {e}") from e
         self.diag_coded_type.encode_into_pdu(internal_value, encode_state)
 
     def decode_from_pdu(self, decode_state: DecodeState) -> ParameterValue:
